@@ -800,8 +800,21 @@ def gen_C11(rng, tier):
     for _ in range(n):
         desc = field_desc(*rng.choice(SMALL_Q[:14]))
         h = H(rng, desc, bspec=bspec(rng))
-        gs = small_ideal(h, rng)
+        if rng.random() < 0.3:
+            # leading monomials that are pure powers of one variable (coprime-looking pairs), and the
+            # predicates asked on the fresh object before the basis is computed
+            one = h.elem("1")
+            gs = []
+            for _ in range(2):
+                g = h.bpoly(nterms=rng.choice([1, 2]), box=2)
+                v = rng.choice([0, 1])
+                h.ops.append("inc %s %s %s" % (g, "%d:0" % rng.randrange(2, 5) if v == 0 else "0:%d" % rng.randrange(2, 5), one))
+                gs.append(g)
+        else:
+            gs = small_ideal(h, rng)
         i0 = h.newi(); h.ops.append("%s=ideal@0 %s" % (i0, " ".join(gs)))
+        if rng.random() < 0.4:
+            h.ops.append("%s %s" % (rng.choice(["isgroebner", "isminimal", "isreduced", "minimize", "reducebasis"]), i0))
         i1 = h.newi(); h.ops.append("%s=groebner %s" % (i1, i0))
         h.ops.append("obs %s" % i0)
         h.ops.append("obs %s" % i1)
@@ -1354,11 +1367,27 @@ def gen_C18(rng, tier):
     for _ in range(n):
         p, k = rng.choice(pool)
         desc = field_desc(p, k)
+        other_p = None
+        if k == 1 and rng.random() < 0.35:
+            # a second prime field of another characteristic as field object 1
+            other_p = rng.choice([q for (q, kk) in pool if kk == 1 and q != p])
+            desc = "%s,P:%d" % (desc, other_p)
         h = H(rng, desc, bspec=bspec(rng), snap=True)
         es = [h.elem() for _ in range(3)] + [h.elem("0"), h.elem("1")]
+        if other_p:
+            # receivers of the other field (with its own multiplication table) re-used for products here
+            o1 = h.newe(); h.ops.append("%s=enc@1 %d" % (o1, rng.randrange(1, other_p)))
+            o2 = h.newe(); h.ops.append("%s=enc@1 %d" % (o2, rng.randrange(1, other_p)))
+            h.ops.append("tables@1 %d 1 -" % rng.randrange(2))
+            nz = [h.elem(str(rng.randrange(1, p))) for _ in range(2)]
+            h.ops.append("prod %s %s %s" % (o1, nz[0], nz[1]))
+            h.ops.append("prod %s %s %s" % (o1, nz[1], nz[1]))
+            c0 = h.newe(); h.ops.append("%s=copy %s" % (c0, nz[0]))
+            h.ops.append("prod %s %s %s" % (c0, o2, o2))
+            h.ops.append("%s=times %s %s" % (h.newe(), o2, o2))
         ps = [h.upoly(deg=rng.choice([1, 2, 4])) for _ in range(2)]
         qs = [h.bpoly(nterms=rng.choice([1, 2, 3]), box=3) for _ in range(2)]
-        if rng.random() < 0.3:
+        if other_p is None and rng.random() < 0.3:
             # a receiver that belongs to a second field object (with its own tables) is re-used for a
             # product of elements of the first field object, and vice versa
             o1 = h.newe(); h.ops.append("%s=enc@1 %s" % (o1, rand_elem(desc, rng)))
